@@ -22,6 +22,9 @@ type Case struct {
 	// Paths: client→wire: CalendarMultiGet.Paths as given by the caller;
 	// wire→backend: the decoded path every href of Req.Hrefs denotes.
 	Paths []string `json:"paths,omitempty"`
+	// Seq (witness only): which of several successive calls made with one
+	// argument value this request belongs to.
+	Seq string `json:"seq,omitempty"`
 
 	// client→wire only.
 	Endpoint string `json:"endpoint,omitempty"`
@@ -352,6 +355,10 @@ func (g *gen) hrefList(min int) []string {
 		n = 20
 	default:
 		n = min + g.r.Intn(21-min)
+	}
+	if g.chance(25) {
+		// sizes around the round numbers at which an implementation might batch
+		n = []int{99, 100, 101, 128, 150, 200, 201, 257, 513}[g.r.Intn(9)]
 	}
 	var l []string
 	for i := 0; i < n; i++ {
